@@ -1,6 +1,7 @@
 package main
 
 import (
+	"io"
 	"bytes"
 	"context"
 	"fmt"
@@ -29,8 +30,27 @@ type anyIter interface {
 
 type chunkIterAdapter struct{ *ftdc.ChunkIterator }
 
+// eofDelay > 0: the input is a reader that pauses before it reports the end of the input (a file, pipe or socket does
+// not answer the last Read at once); set by cmdSchedErr from a reader name of the form <reader>@<ms>
+var eofDelay time.Duration
+
+type slowEOFReader struct {
+	r *bytes.Reader
+	d time.Duration
+}
+
+func (s *slowEOFReader) Read(p []byte) (int, error) {
+	if s.r.Len() == 0 {
+		time.Sleep(s.d)
+	}
+	return s.r.Read(p)
+}
+
 func openReader(name string, ctx context.Context, stream []byte) anyIter {
-	r := bytes.NewReader(stream)
+	var r io.Reader = bytes.NewReader(stream)
+	if eofDelay > 0 {
+		r = &slowEOFReader{bytes.NewReader(stream), eofDelay}
+	}
 	switch name {
 	case "chunks":
 		return chunkIterAdapter{ftdc.ReadChunks(ctx, r)}
@@ -113,6 +133,12 @@ func waitNoGoroutines(d time.Duration) (int, string) {
 func cmdSchedErr(o *Out, line string, f []string) {
 	reader, point, occ, sleepMs, seed := f[0], f[1], int(atoi64(f[2])), int(atoi64(f[3])), atoi64(f[4])
 	stream := unhx(f[5])
+	eofDelay = 0
+	if i := strings.IndexByte(reader, '@'); i >= 0 {
+		eofDelay = time.Duration(atoi64(reader[i+1:])) * time.Millisecond
+		reader = reader[:i]
+	}
+	defer func() { eofDelay = 0 }()
 	// optional third section: "errors>=K" - the stream fails at K places that every schedule reaches
 	wantErrors := 0
 	if sec := sections(f); len(sec) >= 3 && len(sec[2]) == 1 && strings.HasPrefix(sec[2][0], "errors>=") {
@@ -159,7 +185,7 @@ func cmdSchedErr(o *Out, line string, f []string) {
 			got = strings.Count(errLater.Error(), "\n") + 1
 		}
 		if got < wantErrors {
-			o.violation(line, "an error reported by one of the reader's goroutines is missing from Err() after all of them have finished",
+			o.violation(line, "a failure of the input is missing from Err() after Next() has returned false and every goroutine of the reader has finished",
 				map[string]int{"reported": got, "failures_in_input": wantErrors})
 		}
 	}
@@ -268,15 +294,24 @@ func streamSchedErr(o *Out, rng *rand.Rand, thorough bool, _ []string) {
 	sleep := 15
 	for _, st := range fs {
 		for _, rd := range readerNames {
-			lines = append(lines, fmt.Sprintf("sched-err %s - 0 %d 0 %s | %s", rd, 1, hx(st), inflateTable(st)))
+			lines = append(lines, fmt.Sprintf("sched-err %s - 0 %d 0 %s | %s | errors>=1", rd, 1, hx(st), inflateTable(st)))
 			for _, pt := range hookPoints {
 				occs := []int{1}
 				if thorough {
 					occs = []int{1, 2, 3}
 				}
 				for _, oc := range occs {
-					lines = append(lines, fmt.Sprintf("sched-err %s %s %d %d 0 %s | %s", rd, pt, oc, sleep, hx(st), inflateTable(st)))
+					lines = append(lines, fmt.Sprintf("sched-err %s %s %d %d 0 %s | %s | errors>=1", rd, pt, oc, sleep, hx(st), inflateTable(st)))
 				}
+			}
+		}
+	}
+	// the same with an input that is slow to report its end: the reading goroutine is still finishing while the chunk
+	// goroutine fails (or the other way round), with either of them held at its last steps
+	for _, st := range fs {
+		for _, rd := range readerNames {
+			for _, pt := range []string{"-", "catcher.Add", "ReadChunks.diagnostic.close", "ReadChunks.chunks.close"} {
+				lines = append(lines, fmt.Sprintf("sched-err %s@5 %s 1 %d 0 %s | %s | errors>=1", rd, pt, sleep, hx(st), inflateTable(st)))
 			}
 		}
 	}
@@ -284,7 +319,7 @@ func streamSchedErr(o *Out, rng *rand.Rand, thorough bool, _ []string) {
 		// quick tier: a deterministic third of the systematic schedules plus perturbed runs
 		var sel []string
 		for i, l := range lines {
-			if i%3 == int(rng.Int63()%3) || strings.Contains(l, " catcher.Add ") {
+			if i%3 == int(rng.Int63()%3) || strings.Contains(l, " catcher.Add ") || strings.Contains(l, "@5 ReadChunks.") {
 				sel = append(sel, l)
 			}
 		}
@@ -296,7 +331,7 @@ func streamSchedErr(o *Out, rng *rand.Rand, thorough bool, _ []string) {
 	}
 	for i := 0; i < np; i++ {
 		st := fs[rng.Intn(len(fs))]
-		lines = append(lines, fmt.Sprintf("sched-err %s - 0 1 %d %s | %s", readerNames[rng.Intn(len(readerNames))], 1+rng.Int63n(1<<30), hx(st), inflateTable(st)))
+		lines = append(lines, fmt.Sprintf("sched-err %s - 0 1 %d %s | %s | errors>=1", readerNames[rng.Intn(len(readerNames))], 1+rng.Int63n(1<<30), hx(st), inflateTable(st)))
 	}
 	// two failures that every schedule reaches: a corrupt chunk (fails in the chunk decoder) directly followed by a
 	// truncated document (fails in the document reader); either goroutine may be the late one
@@ -353,6 +388,27 @@ func streamSchedClose(o *Out, rng *rand.Rand, thorough bool, _ []string) {
 		}
 		shapes = append(shapes, st)
 	}
+	docTotals := []int{3, 250, 60, 8, 12}
+	firstChunk := []int{3, 250, 1, 2, 1}
+	chunkTotals := []int{0, 0, 0, 0, 0}
+	// damaged streams: a chunk that fails to decode with more documents behind it; iteration ends early, with
+	// the reading goroutine still holding the next document (Close after exhaustion has something to release)
+	for _, c := range [][3]int{{8, 2, 0}, {8, 2, 1}, {40, 2, 3}, {40, 2, 18}} {
+		good := mk(c[0], c[1])
+		tds := topDocs(good)
+		td := tds[c[2]]
+		m := append([]byte{}, good[:td.off]...)
+		m = append(m, rebuildChunk(int32(c[2]), 1, []byte{5, 0, 0, 0, 0, 9, 0, 0, 0, 0, 0, 0, 0}, -1, nil)...)
+		m = append(m, good[td.off+td.l:]...)
+		shapes = append(shapes, m)
+		docTotals = append(docTotals, c[1]*c[2]+1)
+		fc := c[1]
+		if c[2] == 0 {
+			fc = 0
+		}
+		firstChunk = append(firstChunk, fc)
+		chunkTotals = append(chunkTotals, c[2]+1)
+	}
 	var lines []string
 	for si, st := range shapes {
 		for _, rd := range closeReaderNames {
@@ -363,11 +419,14 @@ func streamSchedClose(o *Out, rng *rand.Rand, thorough bool, _ []string) {
 				}
 			}
 			total := map[string]int{"chunks": nchunks, "matrix": nchunks, "series": nchunks}[rd]
+			if si >= 5 {
+				total = map[string]int{"chunks": chunkTotals[si], "matrix": chunkTotals[si], "series": chunkTotals[si]}[rd] // one step past the damaged chunk
+			}
 			if total == 0 {
-				total = []int{3, 250, 60, 8, 12}[si]
+				total = docTotals[si]
 			}
 			if rd == "citer" || rd == "csiter" {
-				total = []int{3, 250, 1, 2, 1}[si] // samples of the first chunk
+				total = firstChunk[si] // samples of the first chunk
 			}
 			ks := []int{0, 1, 2, total / 2, total - 1, total, total + 1}
 			if thorough {
